@@ -216,7 +216,7 @@ def apply_edit(play, kind, rng):
             p["hosts"] = "other"
         return p, "excluded:hosts"
     if kind == "crafted":
-        which = rng.randrange(7)
+        which = rng.randrange(10)
         target = p
         # choose a random mapping inside the signed part to host the crafted entry
         maps = [(path, c, k) for path, c, k in paths(p) if isinstance(c[k], dict) and path[0] not in ("hosts",) and path != ("vars",)]
@@ -258,10 +258,23 @@ def apply_edit(play, kind, rng):
             target["e"] = "a\\'b\""
             tq["e"] = "a'b\""
             return (p, q), "crafted:backslash-before-quote"
-        target[True] = "t"
-        tq.pop(True, None)
-        tq["True"] = "t"
-        return (p, q), "crafted:bool-key-vs-str-key"
+        if which == 6:
+            target[True] = "t"
+            tq.pop(True, None)
+            tq["True"] = "t"
+            return (p, q), "crafted:bool-key-vs-str-key"
+        if which == 7:
+            a_, b_ = rng.choice([("a\\nb", "a\nb"), ("\\t", "\t"), ("x\\u200by", "x\u200by"), ("\\\\", "\\")])
+            target["esc"] = a_
+            tq["esc"] = b_
+            return (p, q), "crafted:escape-sequence-vs-character"
+        if which == 8:
+            target["s2"] = ["x', 'y\"z"]
+            tq["s2"] = ["x", "y\"z"]
+            return (p, q), "crafted:both-quotes-string-vs-list-items"
+        target["n"] = [1]
+        tq["n"] = 1
+        return (p, q), "crafted:single-item-list-vs-item"
     # ordinary single edit outside the excluded part (may also land inside it: the model decides what is expected)
     addrs = [a for a in paths(p) if a[0] != ("vars", "insights_signature_exclude")]
     op = rng.choice(["change", "insert", "delete", "reorder", "renest", "retype", "rename"])
